@@ -5,6 +5,7 @@ import (
 	"go/constant"
 	"go/token"
 	"go/types"
+	"strings"
 
 	"golang.org/x/tools/go/cfg"
 )
@@ -449,6 +450,72 @@ func init() {
 				} else {
 					obs = append(obs, mkOb(c, "PKG.keyword-lexical", u, construct, w.Node, Violated, "a lexical binding can be stored for a keyword: (let ([:x 1]) (set! :x 2) :x) is accepted and creates a binding that can never be read", true))
 				}
+			}
+			return obs
+		}})
+}
+
+// MACRO.qualified-heads — C08 ("a symbol resolves in lexical scope, then the
+// current package, then its imports … packages isolate"): the forms that the
+// core macros and operators BUILD in Go are evaluated where the macro is used.
+// A head written as the bare symbol `set` or `lambda` is then looked up in the
+// user's lexical scope and current package first, so a parameter, a local or a
+// package-level definition of that name silently replaces the core operator
+// the expansion meant.  Every operator head in a Go-built form is spelled with
+// the language package.
+func init() {
+	register(&Rule{ID: "MACRO.qualified-heads", Floor: 12,
+		Doc: "in the interpreter packages every []*LVal literal whose first element is Symbol(<constant>) naming a core builtin, operator or macro spells it with the language package (\"lisp:set\", not \"set\"): the form is evaluated in the user's scope and package, where the bare name may be rebound",
+		Run: func(c *Ctx) []Obligation {
+			const rid = "MACRO.qualified-heads"
+			symFn := c.LookupPkgFunc("lisp.Symbol")
+			if symFn == nil {
+				return []Obligation{anchorMissing(rid, "lisp.Symbol")}
+			}
+			core := map[string]bool{}
+			for _, e := range c.Registry() {
+				if rel(e.Pkg.PkgPath) == "lisp" {
+					core[e.Name] = true
+				}
+			}
+			if len(core) < 100 {
+				return []Obligation{anchorMissing(rid, "core registry (fewer than 100 names)")}
+			}
+			var obs []Obligation
+			for _, u := range c.Funcs(func(p string) bool { return rel(p) == "lisp" || hasPrefix(rel(p), "lisp/") }) {
+				if u.Decl == nil || u.Decl.Body == nil {
+					continue
+				}
+				info := u.Pkg.TypesInfo
+				ord := &ordinal{}
+				ast.Inspect(u.Decl.Body, func(n ast.Node) bool {
+					cl, ok := n.(*ast.CompositeLit)
+					if !ok || len(cl.Elts) == 0 {
+						return true
+					}
+					if _, ok := info.TypeOf(cl).Underlying().(*types.Slice); !ok {
+						return true
+					}
+					ce, ok := ast.Unparen(cl.Elts[0]).(*ast.CallExpr)
+					if !ok || originOf(Callee(info, ce)) != symFn || len(ce.Args) != 1 {
+						return true
+					}
+					s, ok := constStringVal(info, ce.Args[0])
+					if !ok || s == "" || s[0] == '&' || s[0] == ':' {
+						return true
+					}
+					if i := strings.Index(s, ":"); i > 0 {
+						if core[s[i+1:]] && s[:i] == "lisp" {
+							obs = append(obs, mkOb(c, rid, u, ord.next("head "+s), ce, Proved, "qualified with the language package", false))
+						}
+						return true
+					}
+					if !core[s] {
+						return true
+					}
+					obs = append(obs, mkOb(c, rid, u, ord.next("head "+s), ce, Violated, "the Go-built form calls `"+s+"` by its bare name: it is evaluated where the macro is used, so a lexical binding or a package-level definition of `"+s+"` there (a parameter named "+s+", a package with its own "+s+") replaces the core operator the expansion meant", true))
+					return true
+				})
 			}
 			return obs
 		}})
